@@ -59,6 +59,18 @@ Theorem C13_no_mint_after_annual_max : forall cf s dt s1 s2 s3,
 Proof. exact no_mint_after_annual_max_lemma. Qed.
 Print Assumptions C13_no_mint_after_annual_max.
 
+(* ... and record by record INSIDE a block: every UBI mint happens with the gate still open at the
+   supply reached just before it -- the inflation of the same block and the payouts of the records
+   processed earlier in it included; the mints listed add up to the UBI part of the block's growth.
+   (Several records falling due together are not each checked against the allowance left at block
+   start: the gate is re-read after every payout.) *)
+Theorem C13_annual_gate_holds_between_ubi_records_of_one_block : forall cf s dt s1 s2 s3, 0 <= p_maxann (s_params s) ->
+  block_parts cf s dt = Ok (s1, s2, s3) ->
+  chk_ubi_gate (s_ysnap s) (s_params s) (s_now s + dt) (nat_supply s1) (ubi_mints cf (s_ubis s1) s1) = true /\
+  zsum (ubi_mints cf (s_ubis s1) s1) = nat_supply s2 - nat_supply s1.
+Proof. exact block_ubi_gate_lemma. Qed.
+Print Assumptions C13_annual_gate_holds_between_ubi_records_of_one_block.
+
 (* ================================================================== UBI *)
 (* A UBI record is accepted only if the yearly total of all records stays within the hard cap. *)
 Theorem C13_ubi_within_hardcap_on_this_tree :
@@ -202,7 +214,7 @@ Print Assumptions C13_native_minted_only_by_inflation_or_ubi_with_refusal.
 (* any guard shape: a block, or the layer2 mint message naming the native denomination -- nothing else *)
 Theorem C13_native_minted_only_by_inflation_ubi_or_mintissue : forall cf s o s',
   step cf s o = Ok s' -> nat_supply s < nat_supply s' ->
-  (exists dt, o = OBlock dt) \/ (exists actor amt, o = OMintIssue actor native amt).
+  (exists dt, o = OBlock dt) \/ (exists actor amt, o = OMintIssue actor native amt) \/ (exists actor a1 a2, o = OMintIssue2 actor native a1 a2).
 Proof. exact step_native_sources. Qed.
 Print Assumptions C13_native_minted_only_by_inflation_ubi_or_mintissue.
 
@@ -220,7 +232,7 @@ Print Assumptions C13_mint_sites_sanctioned.
 
 (* ================================================================== the spec checker and the model *)
 (* chk_sound, ALL clauses: the decidable checker that is run on the REAL observations
-   (Model/C13Check.v check_step: infl_target, annual_gate, ubi_payout, snapshot, reg_tracks, origin,
+   (Model/C13Check.v check_step: infl_target, annual_gate, ubi_gate, ubi_mints, ubi_payout, snapshot, reg_tracks, origin,
    ubi_cap, ubi_record, reject, gate, owner_only, owner_cap, cap, cap_hist) accepts every step of the
    model with the five guards in the repaired shape, from every well-formed state ([inv]: what x/gov
    validation, the bank and the block clock guarantee) and checker state agreeing with it ([rel]);
